@@ -9,6 +9,9 @@ func validateArrayAndVectorDimensions(env *Environment, errorSink *validation.Er
 	Visit(env, func(self Visitor, node Node) {
 		switch t := node.(type) {
 		case *Array:
+			if t.Dimensions != nil && len(*t.Dimensions) == 0 {
+				errorSink.Add(validationError(t, "an array must have at least one dimension; omit `dimensions` for an array with an unknown number of dimensions"))
+			}
 			if t.Dimensions != nil && len(*t.Dimensions) > 0 {
 				nullLengthCount := 0
 				notNullLengthCount := 0
